@@ -64,6 +64,24 @@ const (
 	kindI8 = "i8"
 )
 
+// kindUnit is Set[struct{}]: a zero-size element type with ONE value, so a set
+// has at most one member.  The only model value is 0.
+const kindUnit = "unit"
+
+func unitDom() *dom[struct{}] {
+	return &dom[struct{}]{kind: "struct{}", univ: 1,
+		of: func(x int) struct{} {
+			if x != 0 {
+				panic(fmt.Sprintf("harness error: kind %s: model value %d, the type has one value", kindUnit, x))
+			}
+			return struct{}{}
+		},
+		val:  func(struct{}) (int, bool) { return 0, true },
+		repr: func(struct{}) string { return "{}" },
+		note: "the sets are Set[struct{}]; the zero-size type has ONE value, written 0: a set is nil, empty or {0}",
+	}
+}
+
 func isByteKind(k string) bool { return k == kindU8 || k == kindI8 }
 
 func byteOf(kind string, x int) uint8 {
